@@ -48,13 +48,46 @@ def gen_plan(seed, tier="quick"):
     if driver in ("tridonic", "hasseb") and x.random() < 0.1:
         # the one gateway event that makes send() itself put frames on the wire a second time: a write
         # finds the device gone, it comes back, the command is retried (exceptions off) - prefix included
-        plan["callers"] = [{"id": c["id"], "start_us": c["start_us"],
-                            "ops": [plans.gen_send_op(x, driver, [k for k in plans.driver_cats(driver) if k.startswith("dt_")]
-                                                      if x.random() < 0.7 else None) for _ in range(x.randrange(1, 4))]}
-                           for c in plan["callers"][:x.randrange(1, 4)]]
+        if x.random() < 0.5:
+            plan["callers"] = [{"id": c["id"], "start_us": c["start_us"],
+                                "ops": [plans.gen_send_op(x, driver, [k for k in plans.driver_cats(driver) if k.startswith("dt_")]
+                                                          if x.random() < 0.7 else None) for _ in range(x.randrange(1, 4))]}
+                               for c in plan["callers"][:x.randrange(1, 4)]]
+        else:
+            # ... or in the middle of the ordinary mix: sequences and hand-locked transactions whose
+            # commands are retried one by one, callers queued behind the one that waits for the
+            # gateway, callers that give up while it is away
+            plan["callers"] = plans.gen_callers(x, driver, x.choice([2, 3, 3, 4]), 3, cancel_sends=True,
+                                                start_on_event=0.3)
+            for c in plan["callers"]:
+                for op in c["ops"]:
+                    op.pop("exceptions", None)
+        ops_ = [op for c in plan["callers"] for op in c["ops"] if op["kind"] in ("send", "seq", "locked")]
+        if ops_ and x.random() < 0.5:
+            op = x.choice(ops_)
+            if op.get("cancel_after_us") is None and op.get("cancel_at_event") is None and op.get("timeout_us") is None:
+                if x.random() < 0.5:
+                    op["cancel_at_event"] = x.randrange(1, 14)
+                else:
+                    op["cancel_after_us"] = x.choice([1000, 20000, 30000, 60000, 90000, x.randrange(0, 150000)])
         plan["write_fault_at"] = [(2 if driver == "tridonic" else 0) + x.randrange(0, 6)]
         plan["knobs"]["exceptions_on_send"] = False
         plan["knobs"]["reconnect_interval"] = 0.05
+        if driver == "tridonic" and x.random() < 0.05:
+            # ... and a long life of the driver object afterwards: the 8-bit sequence numbers of the
+            # gateway protocol come round to the one the interrupted command had
+            ops = [plans.gen_send_op(x, driver, ["plain16", "query16", "dt_plain"], 0.1) for _ in range(x.randrange(1, 5))]
+            many = [["cmd", cmds.gen_cmd(x, ["plain16", "query16"])] for _ in range(130)]
+            ops += [{"kind": "seq", "items": many, "outs": {}, "gap_us": 0},
+                    {"kind": "locked", "cmds": [cmds.gen_cmd(x, ["plain16", "query16"]) for _ in range(135)], "outs": {}, "gap_us": 0}]
+            for op in ops:
+                op["gap_us"] = 0
+            plan["callers"] = [{"id": "A", "start_us": 0, "ops": ops}]
+            plan["write_fault_at"] = [2 + x.randrange(0, len(ops) - 2 + 1)]
+            plan["knobs"]["latency"] = "fast"
+            plan["knobs"]["stalls"] = []
+            plan["max_iterations"] = 2_000_000
+            plan["deadline_s"] = 3000
     return plan
 
 
@@ -80,17 +113,14 @@ def judge(rr):
     sends = [s for s in rr.dev.sends if "value" in s]
     order = []
     by_unit = {}
-    last_gen = {}
-    for s in sends:
-        last_gen[s["unit"]] = s.get("gen", 0)
+    segs = {}
     for s in sends:
         u = s["unit"]
-        if plan.get("write_fault_at") and s.get("gen", 0) != last_gen[u]:
-            # an attempt cut short by the loss of the gateway: what it got out is a prefix of the unit,
-            # the attempt that counts is the one on the connection that carried it through
-            by_unit.setdefault((u, "earlier"), []).append((s["bits"], s["value"]))
-            continue
         by_unit.setdefault(u, []).append((s["bits"], s["value"]))
+        sg = segs.setdefault(u, [])
+        if not sg or sg[-1][0] != s.get("gen", 0):
+            sg.append((s.get("gen", 0), []))
+        sg[-1][1].append((s["bits"], s["value"]))
         if not order or order[-1] != u:
             order.append(u)
     seen = set()
@@ -100,13 +130,32 @@ def judge(rr):
                 u, order))
             break
         seen.add(u)
-    for k_ in [k_ for k_ in by_unit if isinstance(k_, tuple)]:
-        early = by_unit.pop(k_)
-        full = _hasseb_expand(drvsim.op_cmd_specs(rr.ops[k_[0]].op)) if drv == "hasseb" else \
-            cmds.expected_wire(drvsim.op_cmd_specs(rr.ops[k_[0]].op))
-        if early != full[:len(early)]:
-            V("unit-frames-differ", "unit %s: interrupted attempt wrote %s, not a prefix of %s" % (
-                k_[0], _fmt(early), _fmt(full)), site="interrupted-attempt")
+    for u in [u for u in segs if u is not None and len(segs[u]) > 1]:
+        # the gateway went away under this unit (a write found it gone) and the unit went on over the
+        # new connection: every command reaches the wire in order, the command that was cut short is
+        # put out again from its beginning (device-type prefix included), nothing else is repeated
+        groups = _groups(drvsim.op_cmd_specs(rr.ops[u].op), drv)
+        pos, bad, normal = 0, None, []
+        for gi, (gen_, fr) in enumerate(segs[u]):
+            last = gi == len(segs[u]) - 1
+            i = 0
+            while pos < len(groups) and fr[i:i + len(groups[pos])] == groups[pos] and len(fr) - i >= len(groups[pos]):
+                normal.extend(groups[pos])
+                i += len(groups[pos])
+                pos += 1
+            rest = fr[i:]
+            if last:
+                normal.extend(rest)        # judged below like any unit: all of it, or a prefix if the unit was cut short
+            elif pos >= len(groups) or len(rest) >= len(groups[pos]) or rest != groups[pos][:len(rest)]:
+                bad = (gen_, fr)
+                break
+        if bad:
+            V("unit-frames-differ", "unit %s: on connection #%d the wire carried %s; commands of the unit: %s" % (
+                u, bad[0], _fmt(bad[1]), [_fmt(g) for g in groups]), site="interrupted-attempt")
+            by_unit.pop(u, None)
+        else:
+            rr.world.probe("unit-carried-over-a-reconnect")
+            by_unit[u] = normal
     if None in by_unit:
         V("untagged-frame", "frame written outside any caller unit: %s" % (by_unit[None],))
     for u, rec in rr.ops.items():
@@ -121,7 +170,11 @@ def judge(rr):
                     u, rec.op["cmd"][0], rec.op.get("exceptions"), rec.status, _fmt(by_unit.get(u, []))), site=drv)
             continue
         if rec.status == "raised" and rec.op.get("raise_at") is None and rec.op.get("progress_raise_at") is None \
-                and not rec.op.get("bad_close") and not rec.cancel_requested and not plan.get("write_fault_at"):
+                and not rec.op.get("bad_close") and not rec.cancel_requested \
+                and not (plan.get("write_fault_at") and rec.op["kind"] == "seq"
+                         and type(rec.exc).__name__ == "CommunicationError"):
+            # (exceptions are off in the plans that lose the gateway: send() waits for it and does not
+            # fail; run_sequence has no such option and reports the loss to its caller)
             # nothing in this world makes a caller fail: no gateway loss, no silent gateway, no planned exception
             slow = drv in ("luba", "sci") and any(
                 s_.get("conf_arrival_us") is None or s_["conf_arrival_us"] - s_["t_us"] > 0.8 * {"luba": 1e6, "sci": 1e5}[drv]
@@ -177,6 +230,11 @@ def judge(rr):
 def _exp_until(op, ra, drv):
     specs = [it[1] for it in op["items"][:ra] if it[0] == "cmd"]
     return _hasseb_expand(specs) if drv == "hasseb" else cmds.expected_wire(specs)
+
+
+def _groups(specs, drv):
+    """The frames of each command of a unit, as the driver writes them."""
+    return [(_hasseb_expand([sp]) if drv == "hasseb" else cmds.expected_wire([sp])) for sp in specs]
 
 
 def _hasseb_expand(specs):
